@@ -2051,14 +2051,14 @@ def _promote_branch_decls(
     for child_ctx, _ in branch_entries:
         base = child_ctx.get("_base_declared", set())
         new_names = child_ctx.get("var_declared", set()) - base
-        for name in new_names:
+        for name in sorted(new_names):
             record(name, child_ctx)
 
     if else_entry is not None:
         else_ctx, _ = else_entry
         base = else_ctx.get("_base_declared", set())
         new_names = else_ctx.get("var_declared", set()) - base
-        for name in new_names:
+        for name in sorted(new_names):
             record(name, else_ctx)
 
     if not order:
@@ -2794,7 +2794,7 @@ def _parse_simple_lines(
 
             _collect_order(loop_body)
 
-            for name in promoted_set:
+            for name in sorted(promoted_set):
                 if name not in promoted_names:
                     promoted_names.append(name)
 
@@ -2879,7 +2879,7 @@ def _parse_simple_lines(
 
             _collect_order(loop_body)
 
-            for name in promoted_set:
+            for name in sorted(promoted_set):
                 if name not in promoted_names:
                     promoted_names.append(name)
 
